@@ -37,6 +37,8 @@ def qualifier(inv, case, ev):
         return op.split(':')[1]
     if inv == 'NoDuplicateEntries':
         return op_class(op)
+    if inv in ('PlacesAndWindows', 'ShiftEnd') and not case.get('metric', True):
+        return 'non-metric-matrix'
     return 'general'
 
 
